@@ -234,17 +234,36 @@ CT_MAX = 64
 def _ctree(t):
     """number of constant leaves if t is a tree of ite nodes over constants (<= CT_MAX leaves), else 0"""
     r = _CT.get(t.id)
-    if r is None:
-        if t.op == 'bv':
-            r = 1
-        elif t.op == 'ite':
-            a = _ctree(t.args[1])
-            b = _ctree(t.args[2]) if a else 0
-            r = (a + b) if (a and b and a + b <= CT_MAX) else 0
+    if r is not None:
+        return r
+    stack = [t]
+    while stack:
+        x = stack[-1]
+        if x.id in _CT:
+            stack.pop()
+            continue
+        if x.op == 'bv':
+            _CT[x.id] = 1
+            stack.pop()
+        elif x.op == 'ite':
+            a = _CT.get(x.args[1].id)
+            if a is None:
+                stack.append(x.args[1])
+                continue
+            if a == 0:
+                _CT[x.id] = 0
+                stack.pop()
+                continue
+            b = _CT.get(x.args[2].id)
+            if b is None:
+                stack.append(x.args[2])
+                continue
+            _CT[x.id] = (a + b) if (b and a + b <= CT_MAX) else 0
+            stack.pop()
         else:
-            r = 0
-        _CT[t.id] = r
-    return r
+            _CT[x.id] = 0
+            stack.pop()
+    return _CT[t.id]
 
 
 def leaves(t):
